@@ -10,10 +10,10 @@ from . import tlaval
 
 SITE = {"CL": "dulwich/index.py:build_index_from_tree", "RI": "dulwich/index.py:build_index_from_tree",
         "CO": "dulwich/index.py:update_working_tree", "COF": "dulwich/index.py:update_working_tree",
-        "RH": "dulwich/index.py:update_working_tree", "ST": "dulwich/stash.py:Stash.pop",
+        "RH": "dulwich/index.py:update_working_tree", "RM": "dulwich/porcelain/__init__.py:reset", "ST": "dulwich/stash.py:Stash.pop",
         "AP": "dulwich/patch.py:apply_patches"}
 ENTRY = {"CL": "porcelain.clone", "RI": "WorkTree.reset_index", "CO": "porcelain.checkout",
-         "COF": "porcelain.checkout(force=True)", "RH": "porcelain.reset(mode='hard')",
+         "COF": "porcelain.checkout(force=True)", "RH": "porcelain.reset(mode='hard')", "RM": "porcelain.reset(mode='mixed')",
          "ST": "porcelain.stash_pop", "AP": "porcelain.apply_patch"}
 
 
@@ -176,9 +176,12 @@ def graph_jobs(g, prot_of, max_finals=24):
         clones = [f for f in finals if f["op"] == "CL"]
         rest = [f for f in finals if f["op"] != "CL"]
         for f in clones:                       # a clone needs a directory without a repository
-            jobs.append({"prot": prot, "prefix": [], "finals": [f]})
+            jobs.append({"prot": prot, "prefix": [], "finals": [f], "risky": False})
+        fs = g.nodes[s]["fs"]
+        risky = (not isinstance(fs, tuple)) and any(len(q) > 2 and q[:2] == ("p", "repo") and q[2] != ".git" and str(nd["t"]) == "l"
+                                                    for q, nd in fs.items())
         for i in range(0, len(rest), max_finals):
-            jobs.append({"prot": prot, "prefix": prefix, "finals": rest[i:i + max_finals]})
+            jobs.append({"prot": prot, "prefix": prefix, "finals": rest[i:i + max_finals], "risky": risky})
     return jobs, {"states": len(g.nodes), "transitions": sum(len(v) for v in groups.values()),
                   "labelled_transitions": len(groups), "reachable": len(parent)}
 
@@ -339,6 +342,8 @@ def _exec_step(job, case, st, done_steps, res, head_tree):
         ents = flat_paths(tree)
         if op == "AP":
             ents = [e for e in ents if e[1]["t"] == "f"]
+        if op == "RM":
+            ents = []            # nothing is materialised
         if op in ("CO", "COF") and head_tree is not None:
             old = {(p, repr(k)) for p, k in flat_paths(head_tree)}
             ents = [e for e in ents if (e[0], repr(e[1])) not in old]
@@ -346,7 +351,7 @@ def _exec_step(job, case, st, done_steps, res, head_tree):
             if any(unsafe.get((c, prot["ntfs"], prot["hfs"]), False) for c in p):
                 viol.append({"sig": f"{SITE[op]}|UnsafeRefused|unsafe path {'/'.join(p)!r} accepted ntfs={int(prot['ntfs'])} hfs={int(prot['hfs'])}",
                              "step": i, "what": f"{ENTRY[op]} reported success for a tree with the unsafe path {'/'.join(p)!r}: {seqtxt}"})
-    if op in ("CL", "RH") or (op in ("CO", "COF") and outcome == "ok"):
+    if op in ("CL", "RH", "RM") or (op in ("CO", "COF") and outcome == "ok"):
         head_tree = tree
     res["behaviours"] += 1
     if outcome != "ok" or any(len(p) > 2 and p[:2] == ("p", "repo") and p[2] != ".git" for p in fs):
@@ -449,13 +454,13 @@ def _D(ch):
 
 _G = {"t": "g", "c": "", "m": "", "to": [], "ch": []}
 FILE_KINDS = [_F("A", "644"), _F("B", "odd"), _F("A", "755"), _F("B", "oddnx"), _F("B", "644")]
-LINK_TARGETS = [["..", "od"], ["..", "of"], ["", "p", "od"], ["", "p", "of"], [".git"], [".git", "config"], [".git", "hooks"],
+LINK_TARGETS = [["..", "od"], ["..", "of"], ["..", "repo-x", "f"], ["..", "repo-x"], ["", "p", "od"], ["", "p", "of"], [".git"], [".git", "config"], [".git", "hooks"],
                 ["a"], ["d"], ["e"], ["x"], ["d", "x"], ["..", "ol"], ["."], [".."], ["..", ".."], ["..", "od", "e"],
                 [".git", "hooks", "h"], ["a", "x"]]
 CHILD_LINKS = [["..", "..", "od"], ["..", "..", "of"], ["..", "a"], ["..", ".git", "config"], ["x"], ["", "p", "od", "e"]]
 ROOT_NAMES = [["a"], ["d"], ["e"], ["x"]]
 ODD_NAMES = [[".git"], ["git~1"], [".GIT"], ["..", "of"], ["d", "x"], ["a", "x"], ["d", "e"], [".git", "x"], ["~"]]
-CHILD_NAMES = [["x"], ["e"], ["config"], ["h"], ["of"], ["od"]]
+CHILD_NAMES = [["x"], ["e"], ["config"], ["h"], ["of"], ["od"], ["f"]]
 
 
 def gen_tree(rng, max_entries=3):
@@ -495,12 +500,12 @@ def gen_history(rng, length):
     steps = []
     has_head = False
     for i in range(length):
-        ops = ["RI", "CO", "COF", "COF", "RH", "RH", "AP"] + (["ST", "ST"] if has_head else [])
+        ops = ["RI", "CO", "COF", "COF", "RH", "RH", "RM", "RM", "AP", "AP"] + (["ST", "ST"] if has_head else [])
         if i == 0 and prot == {"ntfs": True, "hfs": False} and rng.random() < 0.2:
             op = "CL"
         else:
             op = rng.choice(ops)
-        if op in ("CL", "RH"):
+        if op in ("CL", "RH", "RM"):
             has_head = True
         steps.append({"op": op, "tree": gen_tree(rng), "alts": None, "plan": None})
     return {"prot": prot, "prefix": steps[:-1], "finals": steps[-1:], "keep_obs": True}
